@@ -7,7 +7,11 @@ of WireSeq.tla; a connection is opened by the remote party (the node accepts and
 dials the remote party's listener, sends its request and reads the response); TLC enumerates every class sequence within
 the bounds; each sequence is instantiated as real bytes and sent to a REAL node (real p2p handshake of either side and
 frame reader over net.Pipe feeding the real ProtocolManager, chain and stores) running in a sub-process; TraceWire.tla
-judges every logged step."""
+judges every logged step.  The receive-side layer covers what the remote party does with the bytes the node SENDS (it stops reading,
+resets the node's sending direction, hangs up, resumes, lets the node's write deadline pass, stays silent until the node gives up -
+at any moment, in every phase, with an answer in flight or not, with a well-behaved bystander connected or not): within the bound
+nothing of the node may still be in flight or wait for a lock, what is owed (closing after malformed input, passing a transaction
+on to the bystander) is done, and the node goes on serving."""
 import json, os, glob, re
 from vlib import Broken
 
@@ -24,15 +28,24 @@ MANIFEST = dict(
          "lock-waiters in a consistent goroutine snapshot and TotalAlloc per step are judged by TLC against the trace spec. Sequence layer: TLC's state "
          "graph over the abstract content of the protocol manager's block / confirm cache and chain (5 blocks / 17 messages quick, 7-9 blocks / 25-40 "
          "messages thorough: BlocksMsg with lists of descriptors <<id, height, parent, valid|junk>>, ConfirmMsg, single-message classes, the 500 ms "
-         "queue timer, reconnects); every (abstract state, message) edge is replayed on the real node, whose caches are read back after every step.",
+         "queue timer, reconnects); every (abstract state, message) edge is replayed on the real node, whose caches are read back after every step. "
+         "Receive-side layer: TLC's state graph over (phase, what the remote does with the node's writes: reads / does not read / resets, which answer "
+         "is in flight, bystander connected / owed a transaction) with the actions StopReading, Resume, ResetConn, HangUp, Deadline, StallOut, Bystander "
+         "interleaved with requests, a transaction and malformed frames in every phase and both directions; every edge is replayed on the real node over an "
+         "unbuffered pipe whose node end records the node's writes in flight, the deadlines it asked for and the writes that failed; a step is observed when "
+         "nothing is in flight and nothing can run, or when the node's deadline plus a grace period is over.",
     note="The node is assembled like main/node.New; an inbound connection is handled like p2p.Server.listenLoop/HandleConn(fd, nil)/run, an outbound one like "
          "DialManager.runDialTask/Server.HandleConn(fd, nodeID)/run to an address learnt through DiscoverManager.AddNewList, with an evil listener at the other "
          "end of a net.Pipe (Server itself needs a TCP port). Classes, not all byte strings: within a class bytes are seeded (3 seeds in thorough). Quiescence is a stop-the-world goroutine "
-         "snapshot with no runnable node goroutine, not a sleep. CPU exhaustion without allocation and retained (as opposed to allocated) memory are not judged.",
+         "snapshot with no runnable node goroutine, not a sleep. CPU exhaustion without allocation and retained (as opposed to allocated) memory are not judged. "
+         "Receive-side layer: while the remote does not read, the node's end of the pipe honours a write deadline d as now + (d - now) / 20 (the node's deadlines are "
+         "constants of 3 / 10 / 20 s); the thorough tier replays the quick graph once more with the true deadlines.",
     technique="TLA+ model (Wire.tla) enumerated by TLC + replay of every behaviour on the real network stack in sub-processes + TLC trace validation (TraceWire.tla)")
 
 # neg5: only dialed connections, the handshake-packet deviation on
-NEG = [("MCWire_neg1.cfg", "NodeAlive"), ("MCWire_neg5.cfg", "NodeAlive"), ("MCWire_neg2.cfg", "NoDeadlock"), ("MCWire_neg3.cfg", "AllocBounded"), ("MCWire_neg4.cfg", "AllocBounded")]
+# rx_neg: the receive-side layer with a writer that re-enters the peer's write lock when its write fails
+NEG = [("MCWire_neg1.cfg", "NodeAlive"), ("MCWire_neg5.cfg", "NodeAlive"), ("MCWire_neg2.cfg", "NoDeadlock"), ("MCWire_neg3.cfg", "AllocBounded"), ("MCWire_neg4.cfg", "AllocBounded"),
+       ("MCWire_rx_neg.cfg", "NoDeadlock")]
 
 
 def nontrivial(files):
@@ -108,13 +121,56 @@ def seq_layer(ctx, cfg, name, shards=32, limit=0):
     return files, summ, ok
 
 
+RX_OPS = ("StopReading", "Resume", "ResetConn", "HangUp", "Deadline", "StallOut")
+
+
+def rx_layer(ctx, cfg, name, env):
+    """The receive-side layer: what the remote does with the node's WRITES (not reading, resetting, hanging up, resuming, at any
+    moment, also while an answer is in flight); every edge of TLC's graph over (phase, rx, answer in flight) replayed on the real node."""
+    dot = ctx.path("wire_%s.dot" % name)
+    r = ctx.tlc_exhaustive("MCWire", cfg, timeout=600, dump=dot, coverage=not ctx.quick())
+    want = ("StopReading", "Resume", "ResetConn", "HangUp", "Deadline") + (("StallOut",) if "thorough" in cfg else ())
+    if [a for a in r.get("zero_cov", []) if a in want]:
+        raise Broken("vacuity: receive-side actions never taken in the design run %s: %s" % (cfg, r["zero_cov"]))
+    files, summ = ctx.replay("wire", graph=dot, shards=16, maxlen=12, env=env, timeout=1500, name="wire." + name)
+    if summ["panics"]:
+        raise Broken("harness panicked inside the adapter (%d)" % summ["panics"])
+    ok = ctx.validate("TraceWire", "TraceWire.cfg", files, what="receive side of the remote, %s" % name, timeout=1500)
+    # what the real node went through (vacuity guards: writes of the node must really have been left in flight and must really have failed)
+    st = dict(steps=0, steps_with_a_write_in_flight=0, writes_failed=0, deadlines_asked_ms=set(), failed_deadlines_ms=set(), closed_after=dict(), max_wait_ms=0, lock_waiters_behind_a_write=0)
+    for f in files:
+        for ln in open(f):
+            e = json.loads(ln)
+            if e["ev"] == "reset" or "wpend" not in e:
+                continue
+            st["steps"] += 1
+            st["steps_with_a_write_in_flight"] += e["wpend"] > 0
+            st["writes_failed"] += len(e["wfailed"])
+            st["deadlines_asked_ms"] |= set(int(round(x, -2)) for x in e["wasked"])
+            st["failed_deadlines_ms"] |= set(int(round(x, -2)) for x in e["wfailed"])
+            st["lock_waiters_behind_a_write"] += (e["wpend"] > 0 and len(e["blocked"]) > 0)
+            if e["ev"] in RX_OPS:
+                k = st["closed_after"].setdefault(e["ev"], [0, 0])
+                k[0] += 1
+                k[1] += bool(e.get("closed"))
+                st["max_wait_ms"] = max(st["max_wait_ms"], e.get("ms", 0))
+    st["deadlines_asked_ms"] = sorted(st["deadlines_asked_ms"])
+    st["failed_deadlines_ms"] = sorted(st["failed_deadlines_ms"])
+    ctx.extra.setdefault("receive_side_layer", {})[name] = dict(st, graph_edges=summ["graph_edges"], graph_nodes=summ["graph_nodes"], behaviours=summ["behaviours"])
+    if ok and not (st["steps_with_a_write_in_flight"] >= 3 and st["writes_failed"] >= 3 and st["closed_after"].get("Deadline", [0, 0])[1] >= 1
+                   and st["closed_after"].get("HangUp", [0, 0])[1] >= 1):
+        raise Broken("vacuity: the receive-side layer did not leave writes of the node in flight / make them fail: %s" % st)
+    return files, summ, ok
+
+
 def run(ctx):
     ctx.build()
     cfg = "MCWire_quick.cfg" if ctx.quick() else "MCWire_thorough.cfg"
     dot = ctx.path("wire.dot")
     r = ctx.tlc_exhaustive("MCWire", cfg, timeout=600, dump=dot, coverage=not ctx.quick())
     # (the sequence-layer actions Tick / SBlocks / SConfirm - the latter two show as Next - are off in this configuration)
-    if not ctx.quick() and [a for a in r.get("zero_cov", []) if a not in ("Tick", "Next")]:
+    # (... and so are those of the receive-side layer)
+    if not ctx.quick() and [a for a in r.get("zero_cov", []) if a not in ("Tick", "Next", "Bystander") + RX_OPS]:
         raise Broken("vacuity: actions never taken in the design run: %s" % r["zero_cov"])
     # negative controls: with a deviation on (the code as it is today) TLC must find the violated clause
     negs = {}
@@ -142,6 +198,13 @@ def run(ctx):
         ok = okq and ok
         allfiles += fq
         edges += sq["graph_edges"]
+    # the receive side of the remote party
+    for name, cfg, renv in ([("rx", "MCWire_rx_quick.cfg", env)] if ctx.quick() else
+                            [("rx", "MCWire_rx_thorough.cfg", env), ("rx_true_deadlines", "MCWire_rx_quick.cfg", dict(env, WIRE_WDL_DIV="1", WIRE_LIMIT_MS="60000"))]):
+        fr, sr, okr = rx_layer(ctx, cfg, name, renv)
+        ok = okr and ok
+        allfiles += fr
+        edges += sr["graph_edges"]
     if not ctx.quick():
         # a second tree: fewer inputs per phase but every carrier class, heartbeats before the protocol handshake
         dot2 = ctx.path("wire2.dot")
@@ -177,6 +240,9 @@ def run(ctx):
                                                    thorough="two graphs: 7 descriptors / 31 payloads (1-3 blocks) / 3 confirms / 2 classes; 9 descriptors (heights 0, 1, 2, 2^32-1, junk on junk, wrong height on genesis) / 20 payloads / 3 confirms with absurd height fields / 2 classes",
                                                    tour_maxlen=30, tick_wait_ms=560),
                                reconnect_probe_after_len=3, reconnect_direction="as the first connection (tree 1) / either (tree 2, simulation)",
+                               receive_side_layer=dict(quick="<= 2 receive-side actions per behaviour, 1 input per phase, requests GetLstStatus (3 s deadline) / GetBlocks (20 s) / a transaction (20 s, passed on to every peer) / a frame with a bad magic, bystander, both directions, reconnect probe",
+                                                       thorough="<= 3 receive-side actions, 2 inputs on the established connection, 11 classes (every answering request, the node's own requests after a higher status / an orphan block, heartbeat frame, malformed frame and payload), StallOut (the node's heartbeat gives up); the quick graph again with the true deadlines",
+                                                       write_deadline_divisor=20, grace_ms=4000),
                                alloc_bound="25 MiB (MaxPackageLength) + 16 MiB + 256 x KiB read in the step", quiescence_cap_ms=30000)
     ctx.assumptions += [
         "input space is partitioned into the classes of spec/WireClasses.tla; inside a class the bytes are seeded samples, not all byte strings",
@@ -186,5 +252,9 @@ def run(ctx):
         "deadlock = a goroutine of the node waiting in sync.(*Mutex|*RWMutex).Lock in a stop-the-world snapshot in which no goroutine of the node can run",
         "sequence layer: blocks are abstracted to <<id, height, parent, valid|junk>> over a universe of 5 (quick) / 7-9 (thorough) descriptors; who signed a junk block, its timestamp (0, 1, genesis, now, 2^32-1, future) and whether it carries a transaction are seeded per block; the valid blocks are assembled for deputies 1 and 2 by a second real chain on the same genesis (a remote party does not have the node's own key)",
         "sequence layer: a Tick step waits 560 ms (the manager's queue timer is 500 ms and free-running) and then for quiescence; the timer also fires during other steps, which the envelope of WireSeq.tla allows (it may only shrink the caches)",
+        "receive-side layer: net.Pipe has no buffer, so a remote that stops reading blocks the node's very next write - the state of a TCP connection whose send buffer is full; a remote that stops reading before the node has answered the encryption handshake of an ACCEPTED connection is not enumerated (that one write has no deadline; on TCP a packet below 1 KiB on a fresh connection never blocks), resetting and hanging up at that point are",
+        "receive-side layer: a reset of the node's sending direction is injected at the node's end of the pipe (every write fails at once with ECONNRESET, reads go on); a hang-up closes both directions",
+        "receive-side layer: bounded time = the deadline the node gave its write (divided by 20 while the remote does not read) plus a grace period of 4 s that only matters in the failing case; lock waiters are judged where no write of the node is in flight (behind a write in flight they may queue for the peer's write lock until its deadline)",
+        "receive-side layer: 'a failed write drops the connection' is demanded only through its consequences (nothing in flight, nobody waiting, malformed input closed, hang-up / stall-out closed, peer forgotten, bystander served); after a passed deadline the connection may be closed or kept",
         "the protocol manager's unexported caches are read hook-free through reflect/unsafe and their own exported, locking accessors (Iterate with a callback that removes nothing, Size)",
     ]
